@@ -406,7 +406,13 @@ func connClosed(c *drpcconn.Conn) bool {
 
 // ---- client side --------------------------------------------------------------------
 
-func (x *e1) reqBytes(r *RPCSpec) []byte { return msgBytes(r.Idx, dirC2S, 0, seqReq, r.ReqSize) }
+func (x *e1) reqBytes(r *RPCSpec) []byte {
+	b := msgBytes(r.Idx, dirC2S, 0, seqReq, r.ReqSize)
+	if r.BadMarshal {
+		b[0] = 0xEF
+	}
+	return b
+}
 func (x *e1) respBytes(r *RPCSpec) []byte { return msgBytes(r.Idx, dirS2C, 0, seqResp, r.Resp) }
 
 func (x *e1) runClientRPC(r *rpcRec) {
@@ -528,6 +534,9 @@ func (x *e1) execOp(sd *sideRec, op Op) {
 	switch op.Kind {
 	case OpSend:
 		b := msgBytes(k, sd.dir, op.Sender, op.Seq, op.Size)
+		if op.Bad && len(b) > 0 {
+			b[0] = 0xEE // the receiver's Unmarshal refuses it
+		}
 		rec := &sendRec{Op: op, Start: x.d.Step, Bytes: b}
 		sd.Sends = append(sd.Sends, rec)
 		termAtStart := x.terminated(st)
@@ -564,6 +573,18 @@ func (x *e1) execOp(sd *sideRec, op Op) {
 			rr := &recvRec{Step: x.d.Step, Err: err}
 			if err == nil {
 				rr.Data = m.B
+			}
+			if errors.Is(err, errUndecodable) {
+				// the message arrived but the application's encoding refused it:
+				// it counts as the next message of the stream, the stream goes on
+				sd.recvPos++
+				sd.Recvs = append(sd.Recvs, rr)
+				x.d.Record(taskName(), who+".recv-return", fmt.Sprintf("rpc%d undecodable message", k))
+				x.res.probe("undecodable_message_received")
+				if op.Kind == OpRecv {
+					break
+				}
+				continue
 			}
 			x.checkCancelledCall(sd, "MsgRecv", recvStart, err)
 			sd.Recvs = append(sd.Recvs, rr)
